@@ -540,8 +540,10 @@ class _ANMF(Entry):
     exact = False
 
     def spec(self, draw):
-        return dict(cls=self.name, params=dict(force_positive=draw(st.booleans()), n_components=draw(st.integers(1, 2)), random_state=draw(st.integers(0, 5)),
-                                               max_iter=draw(st.sampled_from([50, 100])), init=draw(st.sampled_from(["random", "nndsvda"]))))
+        # None is a value like any other for the parameters NMF documents as optional (full rank, default initialisation)
+        return dict(cls=self.name, params=dict(force_positive=draw(st.booleans()), n_components=draw(st.sampled_from([1, 2, 1, 2, None])),
+                                               random_state=draw(st.integers(0, 5)),
+                                               max_iter=draw(st.sampled_from([50, 100])), init=draw(st.sampled_from(["random", "nndsvda", None]))))
 
 
 @register
